@@ -124,8 +124,13 @@ def check_ops(ctx, s, cls, cases):
         reqs.append({'op': 'c03.spec_normal', 'alg': cls, 'a': jres})
     ans = ctx.driver.run(reqs)
     for i, (case, stored, jres, res2, hbar) in enumerate(rows):
-        model, eq, normal = ans[3 * i], ans[3 * i + 1], ans[3 * i + 2]
+        model, eq, normal = ans[3 * i]['r'], ans[3 * i + 1], ans[3 * i + 2]
         if big(model) or big(jres):
+            s.discards += 1
+            continue
+        if canon_nz(model) != canon_nz(ans[3 * i]['r0']):
+            # a non-zero sum below EQ_TOLERANCE was deleted: outside the exact regime of the theorems
+            s.count('outside-exact-regime')
             s.discards += 1
             continue
         s.case(case)
@@ -440,8 +445,9 @@ def stream_chemist_reorder(ctx):
         items[0] = (items[0][0] + ((nm - 1, acts[0]),) if not any(f[0] == nm - 1 for f in items[0][0]) else items[0][0],
                     items[0][1])
         op = mk_op(C, items)
-        if not op.terms:
-            continue
+        if rng.random() < 0.03:
+            # a constant (or zero) operator: no mode index at all
+            op = C((), dyadic(rng, max_num=4, max_pow=1)) if rng.random() < 0.7 else C()
         which = rng.choice(['up_then_down', 'reversal', 'perm'])
         num_modes = nm if rng.random() < 0.5 else None
         rev = rng.random() < 0.3
@@ -460,9 +466,12 @@ def stream_chemist_reorder(ctx):
         try:
             res = of.reorder(op, fn, num_modes=num_modes, reverse=rev)
         except Exception as e:  # noqa
+            case['no_mode_index'] = all(len(t) == 0 for t in op.terms)
             s.violate('reorder raised %s' % type(e).__name__, case, {'error': repr(e)})
             continue
         n_eff = nm if num_modes is None else num_modes
+        if num_modes is None and all(len(t) == 0 for t in op.terms):
+            continue
         mp = {i: fn(i, n_eff) for i in range(n_eff)}
         if rev:
             mp = {v: k for k, v in mp.items()}
@@ -484,6 +493,27 @@ def stream_chemist_reorder(ctx):
         if not eq['eq']:
             s.violate('reorder(op) is not the relabelled operator', case, {'result': out, 'witness_state': eq['state']})
     return s
+
+
+def classify(v):
+    case = v.get('input', {}) or {}
+    if v.get('stream') == 'chemist-reorder' and v.get('what') == 'reorder raised ValueError' \
+            and case.get('no_mode_index') and case.get('num_modes') is None:
+        return 'F03b'
+    return None
+
+
+def probe_known(ctx, k):
+    of = ctx.of
+    if k['id'] == 'F03b':
+        try:
+            of.reorder(of.FermionOperator(()), of.up_then_down)
+        except ValueError:
+            return True
+        except Exception:
+            return True
+        return False
+    return False
 
 
 def run(ctx):
